@@ -182,6 +182,44 @@ def _deep_part(chk, tier):
     chk.notes['deep'] = {'levels': DEEP[tier], 'documents': 5, 'selectors': len(sels), 'calls': n}
 
 
+def _degenerate_part(chk):
+    """documents without any element (empty, text only, comment only, emptied after parsing) and elements without anything around them:
+    the BeautifulSoup object is a Tag and a legal call target; Api.tla gives the empty result / None / False for every entry point"""
+    import warnings
+    sv, bs4 = common.import_repo()
+    warnings.simplefilter('ignore')
+    docs = []
+    for parser in ('html.parser', 'lxml', 'xml', 'html5lib'):
+        for markup in ('', 'just text', '<!-- only a comment -->', '<!DOCTYPE html>', '  \n '):
+            try:
+                docs.append(('%s:%r' % (parser, markup), bs4.BeautifulSoup(markup, parser)))
+            except Exception:
+                pass
+        d = bs4.BeautifulSoup('<p>x</p>', parser)
+        for t in list(d.contents):
+            t.extract()
+        docs.append(('%s:emptied' % parser, d))
+    lone = bs4.BeautifulSoup('', 'html.parser').new_tag('p')
+    docs.append(('lone new_tag', lone))
+    n = 0
+    for css in _selectors(sv):
+        try:
+            obj = sv.compile(css, namespaces={'svg': 'urn:svg'})
+        except Exception:
+            continue
+        for name, d in docs:
+            for cname, fn in (('select', lambda: obj.select(d)), ('select_one', lambda: obj.select_one(d)), ('iselect', lambda: list(obj.iselect(d))),
+                              ('match', lambda: obj.match(d)), ('closest', lambda: obj.closest(d)), ('filter', lambda: obj.filter(d)),
+                              ('filter(list)', lambda: obj.filter(list(d.contents)))):
+                n += 1
+                try:
+                    common.guard(fn, 20)
+                except BaseException as ex:  # noqa
+                    chk.violation('degenerate|%s|%s|%s' % (css, name, cname), '%s(%r) on the element-less document %s raised %s' % (cname, css, name, type(ex).__name__),
+                                  {'cfg': 'degenerate', 'selector': css, 'doc': name, 'call': cname, 'group': 'degenerate %s %s' % (type(ex).__name__, cname)})
+    chk.count(n, traces=n)
+
+
 def _type_error_part(chk):
     """TypeError is raised exactly when the call target is not a Tag"""
     sv, bs4 = common.import_repo()
@@ -310,6 +348,7 @@ def main(tier):
         replay.stream(chk, 'MC_C08_shapes', {'NAttrs': 2, 'Contexts': '{"rooted", "xhtml"}', 'TypeFirst': 'FALSE', 'OnlyInput': 'TRUE'},
                       'shapes2', _work, _init, is_header=lambda v: False, chunk=8)
     _deep_part(chk, tier)
+    _degenerate_part(chk)
     _type_error_part(chk)
     _order_part(chk)
     return chk.finish()
